@@ -34,8 +34,9 @@ from . import c11
 from .lru import CLASSES, LruClass, call_paths
 
 LEVEL = {
-    "decided": "C10 (necessary clauses): (R10.1) call-key construction agrees with functools._make_key incl. the "
-               "fast-type table parsed from the interpreter's own functools.py; (R10.2) refresh end = insertion end != "
+    "decided": "C10 (necessary clauses): (R10.1) the call key as a table: from_call evaluated over symbolic tuples for 36 "
+               "call shapes equals functools._make_key's rule (marker, order, typed suffix, fast path), the fast-type table "
+               "equals the one parsed from the interpreter's own functools.py, CallKey.__eq__ as a truth table; (R10.2) refresh end = insertion end != "
                "eviction end on an OrderedDict; (R10.3) cache_clear/cache_info/cache_parameters field discipline plus the "
                "per-path hit/miss counting of R11.5; (R10.4) maxsize normalisation table by abstract evaluation of the "
                "decorator front-end over {None, <0, 0, >0, callable, other}; (R10.5) discard key = call key, bound wrapper "
